@@ -11,7 +11,7 @@ export CARGO_NET_OFFLINE=true
 run_demo() {
   if [ -f "$SRC/demo.sh" ]; then
     # the scripts locate their files through dirname $0: keep the copy next to them
-    sed "s#/tmp/seed2*/$ID-out#@@SRC@@#g; s#/tmp/seed2*/$ID#$WT#g; s#@@SRC@@#$SRC#g" "$SRC/demo.sh" > "$SRC/.demo_confirm.sh"
+    sed "s#/tmp/seed[0-9]*/$ID-out#@@SRC@@#g; s#/tmp/seed[0-9]*/$ID#$WT#g; s#@@SRC@@#$SRC#g" "$SRC/demo.sh" > "$SRC/.demo_confirm.sh"
     (cd "$WT" && bash "$SRC/.demo_confirm.sh" $DEMO_ARG1 "$WT"); rc=$?; rm -f "$SRC/.demo_confirm.sh"; return $rc
   elif [ -n "$DEMO_AS_TEST" ]; then
     mkdir -p "$WT/tests" && cp "$SRC/demo_test.rs" "$WT/tests/$DEMO_AS_TEST.rs" && (cd "$WT" && cargo test --offline --target-dir "$WT/target" --test "$DEMO_AS_TEST"); rc=$?; rm -rf "$WT/tests"; return $rc
